@@ -97,6 +97,10 @@ def shards(tier, seed):
                 if not T:
                     cfgs = cfgs[(pi + nself) % 2::2]
                 out.append(("L4", proto, (2, 1), [0.5, q, 0.5], nself, cfgs, 1, pgo))
+    # ---- L5: the duplicate utilities in pybrops/core/util/mate.py (dense_meiosis / dense_dh / dense_cross) with
+    #          DIFFERENT female and male matrices (two parental pools), every selection pair, <= 2 deviations
+    for lay, xop in layouts[:2]:
+        out.append(("L5", "dense", lay, xop, 0, None, 2, None))
     # ---- L2: all answers of one gamete pair for all xoprob vectors (meiosis exactness)
     vals = [0.0, q, 0.5, 1.0]
     vecs = list(itertools.product(vals, repeat=3))
@@ -349,6 +353,8 @@ def run_shard(spec, ctx):
             if 0.5 in vec:
                 ctx.flag("xoprob-0.5")
         ctx.flag(f"L2:{proto}")
+    elif layer == "L5":
+        run_dense(ctx, lay, xop, bound)
     elif layer == "L4":
         for ci, (xconfig, nm, npg) in enumerate(cfgs):
             run_case(ctx, proto, lay, xop, nself, xconfig, nm, npg, bound=bound, counters=(2, 9), pgopts=flag,
@@ -367,6 +373,83 @@ def run_shard(spec, ctx):
         ctx.flag("array-counts")
 
 
+def run_dense(ctx, lay, xop, bound):
+    """core/util/mate.py: gametes / DH / crosses are mosaics of exactly the selected taxon of the matrix given for
+    that side (female matrix -> copy 0, male matrix -> copy 1), under every answer with <= bound deviations."""
+    from pybrops.core.util import mate as M
+    seed = ctx.seed
+    pgF, decF = prov_pgmat(3, lay, xop, seed)
+    pgM, _ = prov_pgmat(3, lay, xop, seed)
+    # second pool: disjoint allele codes (negated and shifted); decode tables tell the pools apart
+    fm = pgF.mat.copy()
+    mm = (-(pgF.mat.astype(int)) - 1).astype("int8") if seed % 3 == 0 else (pgF.mat.astype(int) ^ 0x40).astype("int8")
+    decM = {int(mm[p, t, j]): (p, t, j) for p in range(2) for t in range(3) for j in range(mm.shape[2])}
+    assert not (set(decF) & set(decM))
+    xo = numpy.array(xop, dtype=float)
+    m = fm.shape[2]
+    sels = [([0], [2]), ([1, 1], [0, 2]), ([2, 0, 1], [1, 1, 0])]
+    for fsel, msel in sels:
+        fs, ms = numpy.array(fsel), numpy.array(msel)
+        for fname in ("dense_meiosis", "dense_dh", "dense_cross"):
+            def run(ch):
+                h = MeiosisHandler(ch, xop, mode="full")
+                rng = ScriptedGenerator(h)
+                f0, m0 = fm.copy(), mm.copy()
+                if fname == "dense_meiosis":
+                    o = M.dense_meiosis(f0, fs, xo.copy(), rng)
+                elif fname == "dense_dh":
+                    o = M.dense_dh(m0, ms, xo.copy(), rng)
+                else:
+                    o = M.dense_cross(f0, m0, fs, ms, xo.copy(), rng)
+                return o, h, f0, m0
+            for ch, (o, h, f0, m0) in explore(run, bound=bound):
+                ctx.evaluations += 1
+                ctx.transitions += 1
+                case = dict(layer="L5", fn=fname, layout=list(lay), xoprob=list(xop), fsel=fsel, msel=msel, seed=seed, answers=_trim(ch.taken))
+                def orc():
+                    require(numpy.array_equal(f0, fm) and numpy.array_equal(m0, mm), f"core.util.mate.{fname}:input-mutated", "genotype argument changed")
+                    xs = [d[2] for d in h.draws]
+                    if fname == "dense_meiosis":
+                        exp = R.meiosis(fm, fsel, xs[0])
+                        sides = [(o, decF, fsel)]
+                    elif fname == "dense_dh":
+                        g = R.meiosis(mm, msel, xs[0])
+                        exp = numpy.stack([g, g])
+                        sides = [(o[0], decM, msel), (o[1], decM, msel)]
+                    else:
+                        exp = None
+                        for a, b in ((0, 1), (1, 0)):      # draw order of the two sides is not part of the property
+                            e = numpy.stack([R.meiosis(fm, fsel, xs[a]), R.meiosis(mm, msel, xs[b])])
+                            if exp is None or (e.shape == numpy.shape(o) and numpy.array_equal(e, o)):
+                                exp = e
+                        sides = [(o[0], decF, fsel), (o[1], decM, msel)]
+                    for arr, dec, sel in sides:
+                        require(arr.shape == (len(sel), m), f"core.util.mate.{fname}:shape", lambda: f"shape {arr.shape}")
+                        for i, t in enumerate(sel):
+                            prev = None
+                            for j in range(m):
+                                v = int(arr[i, j])
+                                require(v in dec, f"core.util.mate.{fname}:wrong-parent-matrix",
+                                        lambda: f"gamete {i} marker {j} carries code {v}, which is not an allele of the matrix given for that side")
+                                sp, st, sj = dec[v]
+                                require(st == t and sj == j, f"core.util.mate.{fname}:wrong-parent",
+                                        lambda: f"gamete {i} marker {j} comes from taxon {st} marker {sj}, selected taxon {t}")
+                                if prev is not None and prev != sp:
+                                    require(xop[j] > 0, f"core.util.mate.{fname}:switch-at-zero-interval", lambda: f"gamete {i} switches copy in front of marker {j}")
+                                prev = sp
+                    require(exp.shape == numpy.shape(o) and numpy.array_equal(exp, o), f"core.util.mate.{fname}:pedigree-mismatch",
+                            lambda: f"differs from the reference meiosis under the same answers")
+                ok = ctx.guard(orc, case=case, sig_prefix=f"core.util.mate.{fname}:")
+                ctx.state(digest((fname, fsel, msel, o)))
+                ctx.outcome(digest(o))
+                if h.draws and any(bool(d[2].any()) for d in h.draws):
+                    ctx.nontriv(digest((fname, fsel, msel, tuple(_trim(ch.taken)))))
+                if ok:
+                    ctx.traces += 1
+                ctx.count(f"exec:core.util.mate.{fname}")
+    ctx.flag("L5:core.util.mate")
+
+
 def finalize(ctx, tier, seed):
     for proto in R.PROTOS:
         assert ctx.counters.get(f"exec:{proto}", 0) > 0, proto
@@ -375,9 +458,14 @@ def finalize(ctx, tier, seed):
               "variants-stored-unsorted", "optional-arrays-absent"):
         assert f in ctx.flags, f
     assert len(ctx.outcomes) > 100, len(ctx.outcomes)
+    assert "L5:core.util.mate" in ctx.flags
 
 
 def replay(case, ctx):
+    if case.get("layer") == "L5":
+        ctx.seed = case.get("seed", ctx.seed)
+        run_dense(ctx, tuple(case["layout"]), case["xoprob"], 2)
+        return
     run_case(ctx, case["proto"], tuple(case["layout"]), case["xoprob"], case["nself"],
              [tuple(r) for r in case["xconfig"]], case["nmating"], case["nprogeny"],
              answers=case["answers"], counters=tuple(case["counters"]), two_calls=case["two_calls"], seed=case.get("seed"), pgopts=case.get("pgopts"))
